@@ -58,8 +58,8 @@ def ingest(src):
         rc0, out0 = run(["/venv/bin/python", place(src, w0, sid, "demo.py")], w0)
         rce0, oute0 = run(["/venv/bin/python", place(src, w0, sid, "equiv.py")], w0)
         res["demo_pristine"] = rc0
-        # clean
-        w1 = scratch(d, "clean")
+        # clean: in the very directory the pristine run used (a digest may contain paths of the tree it ran in)
+        w1 = w0
         rc, out = run(["git", "apply", os.path.abspath(os.path.join(src, "clean.diff"))], w1)
         if rc != 0:
             res["error"] = "clean.diff does not apply: " + out[-300:]
